@@ -6,7 +6,6 @@ package main
 
 import (
 	"fmt"
-	"math/rand"
 	"strconv"
 	"strings"
 
@@ -81,8 +80,8 @@ func sqlC11(args []string) error {
 		return err
 	}
 	nscen, _ := strconv.Atoi(args[1])
-	rng := rand.New(rand.NewSource(envSeed()))
-	for sc := 0; sc < nscen; sc++ {
+	for sc := envStart(); sc < nscen; sc++ {
+		rng := scenarioRng(sc)
 		s, err := newRun(tw, ctxName("C11"), 1600)
 		if err != nil {
 			return err
